@@ -350,7 +350,6 @@ def gen(repo):
             if r[4] != m:
                 raise ValueError("from_name('ARRAY<%s>') names element type %r" % (n, r[4]))
             accepted.append(tid[m])
-    ctx_prec = decimal.getcontext().prec
 
     def rule(a):
         attr, (r, d) = a
@@ -415,7 +414,1204 @@ def gen(repo):
     o.append("")
     o.append("(* converters.from_arrow: BATCH_SIZE literal (AST) *)")
     o.append("Definition c11_batch_size : N := %s." % L.N(_batch_size(repo)))
-    o.append("(* decimal.getcontext().prec, the precision FlatColumn gives a DECIMAL column built without one *)")
-    o.append("Definition c11_context_prec : Z := %s." % L.Z(ctx_prec))
     o.append("")
     return {"C11_ArrowMap": "\n".join(o)}
+
+
+# --------------------------------------------------------------------------------------
+# values: canonical cells <-> Python / Arrow
+
+def _bits(x):
+    x = float(x)
+    if x != x:
+        return NAN_BITS
+    return struct.unpack(">Q", struct.pack(">d", x))[0]
+
+
+def _unbits(b):
+    return struct.unpack(">d", struct.pack(">Q", b))[0]
+
+
+def _norm_dec(n, e):
+    if n == 0:
+        return 0, 0
+    while n % 10 == 0:
+        n //= 10
+        e += 1
+    return n, e
+
+
+def canon(v):
+    """Observed Python value -> canonical cell."""
+    import numpy as np
+
+    if v is None:
+        return None
+    if isinstance(v, np.generic) and not isinstance(v, (np.datetime64, np.timedelta64)):
+        v = v.item()
+    if isinstance(v, bool):
+        return ["b", v]
+    if isinstance(v, int):
+        return ["i", v]
+    if isinstance(v, float):
+        return ["f", _bits(v)]
+    if isinstance(v, str):
+        return ["s", v]
+    if isinstance(v, bytes):
+        return ["x", v.hex()]
+    if isinstance(v, datetime.datetime):
+        if v.tzinfo is not None:
+            return ["?", "aware-datetime"]
+        try:
+            base = datetime.datetime(v.year, v.month, v.day, v.hour, v.minute, v.second, v.microsecond)
+        except ValueError:
+            return ["?", type(v).__name__]
+        return ["t", ((base - EPOCH) // datetime.timedelta(microseconds=1)) * 1000 + int(getattr(v, "nanosecond", 0))]
+    if isinstance(v, datetime.date):
+        return ["d", (v - EPOCH_D).days]
+    if isinstance(v, decimal.Decimal):
+        if not v.is_finite():
+            return ["?", "non-finite-decimal"]
+        sign, digits, exp = v.as_tuple()
+        n = int("".join(map(str, digits)) or "0")
+        n, exp = _norm_dec(-n if sign else n, exp)
+        return ["n", n, exp]
+    if isinstance(v, np.ndarray):
+        if v.dtype.kind in "Mm":
+            return ["?", "ndarray-" + str(v.dtype)]
+        return ["l", [canon(x) for x in v.tolist()]]
+    if isinstance(v, (list, tuple)):
+        return ["l", [canon(x) for x in v]]
+    return ["?", type(v).__name__]
+
+
+def pyval(c):
+    """Canonical cell -> Python value (what a DataFrame row holds)."""
+    if c is None:
+        return None
+    k = c[0]
+    if k in ("b", "i", "s"):
+        return c[1]
+    if k == "f":
+        return _unbits(c[1])
+    if k == "x":
+        return bytes.fromhex(c[1])
+    if k == "t":
+        return EPOCH + datetime.timedelta(microseconds=c[1] // 1000)
+    if k == "d":
+        return EPOCH_D + datetime.timedelta(days=c[1])
+    if k == "n":
+        return decimal.Decimal(c[1]).scaleb(c[2], context=decimal.Context(prec=80))
+    if k == "l":
+        return [pyval(x) for x in c[1]]
+    raise KeyError(k)
+
+
+UNIT_NS = {"s": 10**9, "ms": 10**6, "us": 10**3, "ns": 1}
+
+
+def _patype(spec):
+    """Type spec (JSON) -> pyarrow DataType."""
+    import pyarrow as pa
+
+    k = spec[0]
+    simple = {"null": pa.null, "bool": pa.bool_, "int8": pa.int8, "int16": pa.int16, "int32": pa.int32, "int64": pa.int64,
+              "uint8": pa.uint8, "uint16": pa.uint16, "uint32": pa.uint32, "uint64": pa.uint64, "float16": pa.float16,
+              "float32": pa.float32, "float64": pa.float64, "string": pa.string, "large_string": pa.large_string,
+              "binary": pa.binary, "large_binary": pa.large_binary, "date32": pa.date32, "date64": pa.date64,
+              "month_day_nano_interval": pa.month_day_nano_interval, "string_view": pa.string_view, "binary_view": pa.binary_view}
+    if k in simple:
+        return simple[k]()
+    if k == "timestamp":
+        return pa.timestamp(spec[1], tz=spec[2] if len(spec) > 2 else None)
+    if k in ("time32", "time64", "duration"):
+        return getattr(pa, k)(spec[1])
+    if k in ("decimal32", "decimal64", "decimal128", "decimal256"):
+        return getattr(pa, k)(spec[1], spec[2])
+    if k in ("list", "large_list", "list_view", "large_list_view"):
+        return {"list": pa.list_, "large_list": pa.large_list, "list_view": pa.list_view, "large_list_view": pa.large_list_view}[k](_patype(spec[1]))
+    if k == "fsl":
+        return pa.list_(_patype(spec[1]), spec[2])
+    if k == "fixed_binary":
+        return pa.binary(spec[1])
+    if k == "struct":
+        return pa.struct([pa.field(n, _patype(s)) for n, s in spec[1]])
+    if k == "map":
+        return pa.map_(_patype(spec[1]), _patype(spec[2]))
+    if k == "dict":
+        return pa.dictionary(_patype(spec[1]), _patype(spec[2]))
+    if k == "ree":
+        return pa.run_end_encoded(_patype(spec[1]), _patype(spec[2]))
+    if k == "union":
+        fs = [pa.field("f%d" % i, _patype(s)) for i, s in enumerate(spec[2])]
+        return pa.dense_union(fs) if spec[1] == "dense" else pa.sparse_union(fs)
+    raise KeyError(k)
+
+
+def _arrow_value(c, spec):
+    """Canonical cell -> the Python object handed to pyarrow.array for a column of type spec."""
+    if c is None:
+        return None
+    k = spec[0]
+    if k == "timestamp":
+        return c[1] // UNIT_NS[spec[1]]
+    if k == "date32":
+        return c[1]
+    if k == "date64":
+        return c[1] * 86400000
+    if k == "list":
+        return [_arrow_value(x, spec[1]) for x in c[1]]
+    return pyval(c)
+
+
+def _build_table(cols, chunks):
+    import pyarrow as pa
+
+    names = [c["name"] for c in cols]
+    types = [_patype(c["t"]) for c in cols]
+
+    def one(rows):
+        arrays = [pa.array([_arrow_value(r[j], cols[j]["t"]) for r in rows], type=types[j]) for j in range(len(cols))]
+        return pa.Table.from_arrays(arrays, names=names)
+
+    if not chunks:
+        return one([])
+    if len(chunks) == 1:
+        return one(chunks[0])
+    return pa.concat_tables([one(ch) for ch in chunks])
+
+
+def _exc(e):
+    if isinstance(e, ValueError):
+        return "ValueError"
+    if isinstance(e, TypeError):
+        return "TypeError"
+    if isinstance(e, AttributeError):
+        return "AttributeError"
+    return "Other:" + type(e).__name__
+
+
+def _col_obs(c):
+    from orso.types import OrsoTypes
+
+    def tn(t):
+        if t is None:
+            return None
+        return t.name if isinstance(t, OrsoTypes) else "!" + repr(t)
+
+    return {"name": c.name, "type": tn(c.type), "elem": tn(c.element_type), "p": c.precision, "s": c.scale, "nullable": c.nullable,
+            "identity": c.identity}
+
+
+def _field_obs(f):
+    return {"name": f.name, "nullable": bool(f.nullable), "t": _adesc(f.type)}
+
+
+def _schema_obs(schema):
+    if isinstance(schema, dict) and not schema:
+        return []
+    return [_col_obs(c) for c in schema.columns]
+
+
+def _table_rows(tbl):
+    return [r for ch in tbl for r in ch]
+
+
+# --------------------------------------------------------------------------------------
+# running the implementation
+
+def _mk_flatcolumn(spec):
+    from orso.schema import FlatColumn
+    from orso.types import OrsoTypes
+
+    kw = {"name": spec["name"], "nullable": spec.get("nullable", True)}
+    if spec.get("byname"):
+        kw["type"] = spec["byname"]
+    else:
+        kw["type"] = OrsoTypes[spec["type"]]
+        if spec.get("elem") is not None:
+            kw["element_type"] = OrsoTypes[spec["elem"]]
+    if spec.get("p") is not None:
+        kw["precision"] = spec["p"]
+    if spec.get("s") is not None:
+        kw["scale"] = spec["s"]
+    return FlatColumn(**kw)
+
+
+def _observe_stream(case):
+    from orso.converters import from_arrow
+    from orso.dataframe import DataFrame
+
+    tables = [_build_table(case["cols"], t) for t in case["tables"]]
+    n = sum(len(ch) for t in case["tables"] for ch in t)
+    k = n + 2
+    how = case["how"]
+    size = case["size"]
+    obs = {"fields": [_field_obs(f) for f in tables[0].schema] if tables else []}
+    try:
+        if how == "df":
+            df = DataFrame.from_arrow(tables)
+            schema = df._schema
+            nxt = df.fetchone
+        else:
+            arg = {"list": lambda: list(tables), "tuple": lambda: tuple(tables), "gen": lambda: (t for t in tables),
+                   "single": lambda: tables[0]}[how]()
+            it, schema = from_arrow(arg) if size is None else from_arrow(arg, size)
+            nxt = lambda: next(it, None)
+        obs["schema"] = _schema_obs(schema)
+    except Exception as e:
+        obs["raise"] = _exc(e)
+        return obs
+    outs = []
+    for _ in range(k):
+        try:
+            r = nxt()
+        except Exception as e:
+            outs.append({"raise": _exc(e)})
+            break
+        outs.append(None if r is None else [canon(x) for x in r])
+    obs["outs"] = outs
+    return obs
+
+
+def _observe_batch(case):
+    from orso.compute.compiled import process_table
+    from orso.row import Row
+    from orso.schema import convert_arrow_schema_to_orso_schema
+
+    t = _build_table(case["cols"], case["chunks"])
+    factory = Row.create_class(convert_arrow_schema_to_orso_schema(t.schema), tuples_only=True)
+    n = t.num_rows
+    outs = []
+    for b in list(range(1, n + 2)) + [10000]:
+        try:
+            outs.append([[canon(x) for x in r] for r in process_table(t, factory, b)])
+        except Exception as e:
+            outs.append({"raise": _exc(e)})
+    return {"outs": outs}
+
+
+def _observe_roundtrip(case):
+    from orso.dataframe import DataFrame
+
+    rows = [tuple(pyval(c) for c in r) for r in case["rows"]]
+    names = list(case["names"])
+    obs = {}
+    try:
+        df = DataFrame(rows=(r for r in rows) if case.get("lazy") else list(rows), schema=names)
+        t = df.arrow() if case["size"] is None else df.arrow(case["size"])
+        obs["arrow_names"] = list(t.column_names)
+        obs["arrow_rows"] = t.num_rows
+        obs["fields"] = [_field_obs(f) for f in t.schema]
+        df2 = DataFrame.from_arrow(t)
+        obs["names"] = list(df2.column_names)
+        obs["schema"] = _schema_obs(df2._schema)
+    except Exception as e:
+        obs["raise"] = _exc(e)
+        return obs
+    outs = []
+    for _ in range(len(rows) + 2):
+        try:
+            r = df2.fetchone()
+        except Exception as e:
+            outs.append({"raise": _exc(e)})
+            break
+        outs.append(None if r is None else [canon(x) for x in r])
+    obs["outs"] = outs
+    return obs
+
+
+def _observe_o2a(case):
+    from orso.schema import FlatColumn
+
+    obs = {}
+    try:
+        c = _mk_flatcolumn(case["col"])
+    except Exception as e:
+        return {"ctor": _exc(e)}
+    obs["col"] = _col_obs(c)
+    try:
+        f = c.arrow_field
+    except Exception as e:
+        obs["field"] = {"raise": _exc(e)}
+        return obs
+    obs["field"] = _field_obs(f)
+    try:
+        obs["back"] = _col_obs(FlatColumn.from_arrow(f))
+    except Exception as e:
+        obs["back"] = {"raise": _exc(e)}
+    return obs
+
+
+def _observe_a2o(case):
+    import pyarrow as pa
+    from orso.schema import FlatColumn
+
+    fs = case["field"]
+    f = pa.field(fs["name"], _patype(fs["t"]), nullable=fs["nullable"])
+    obs = {"field": _field_obs(f)}
+    try:
+        c = FlatColumn.from_arrow(f, True) if case["mab"] else FlatColumn.from_arrow(f)
+        obs["col"] = _col_obs(c)
+    except Exception as e:
+        obs["col"] = {"raise": _exc(e)}
+    return obs
+
+
+def _observe_schema(case):
+    from orso.schema import RelationSchema, convert_arrow_schema_to_orso_schema, convert_orso_schema_to_arrow_schema
+
+    try:
+        cols = [_mk_flatcolumn(c) for c in case["cols"]]
+        schema = RelationSchema(name="s", columns=cols)
+    except Exception as e:
+        return {"ctor": _exc(e)}
+    obs = {"cols": [_col_obs(c) for c in cols]}
+    try:
+        a = convert_orso_schema_to_arrow_schema(schema, True) if case["ids"] else convert_orso_schema_to_arrow_schema(schema)
+    except Exception as e:
+        obs["fields"] = {"raise": _exc(e)}
+        return obs
+    obs["fields"] = [_field_obs(f) for f in a]
+    try:
+        back = convert_arrow_schema_to_orso_schema(a)
+        obs["back"] = [_col_obs(c) for c in back.columns]
+        obs["back_name"] = back.name
+    except Exception as e:
+        obs["back"] = {"raise": _exc(e)}
+    return obs
+
+
+def observe(case):
+    return {"stream": _observe_stream, "batch": _observe_batch, "roundtrip": _observe_roundtrip, "o2a": _observe_o2a,
+            "a2o": _observe_a2o, "schema": _observe_schema}[case["kind"]](case)
+
+
+# --------------------------------------------------------------------------------------
+# the property, literally, on what the implementation returned
+
+EXCLUDED = ("STRUCT", "JSONB", "_MISSING_TYPE")
+INT_TYPES = ("int8", "int16", "int32", "int64", "uint8", "uint16", "uint32", "uint64")
+
+
+def _is_nan_cell(c):
+    return c is not None and c[0] == "f" and c[1] == NAN_BITS
+
+
+def _has_null_elem(c):
+    return c is not None and c[0] == "l" and any(x is None for x in c[1])
+
+
+def _floated(e):
+    """A numeric list cell as to_pandas returns it once the column holds a null element: a float array."""
+    return ["l", [["f", NAN_BITS] if x is None else ["f", _bits(float(x[1]) if x[0] == "i" else _unbits(x[1]))] for x in e[1]]]
+
+
+def _cell_why(e, o, flags, tol):
+    """None if observed cell o is what the property allows for Arrow value e, else a reason.
+    flags: "int_null" (integer column containing a null), "intlist_null" (list<integer> column containing a null element)."""
+    if o == e:
+        return None
+    if _is_nan_cell(e) and o is None:
+        return None  # a NaN may surface as None
+    if e is not None and e[0] == "l" and o is not None and o[0] == "l" and len(e[1]) == len(o[1]):
+        if all(_cell_why(x, y, (), ()) is None for x, y in zip(e[1], o[1])):
+            return None
+        if "F-C11-5" in tol and all(x is None or x[0] in ("i", "f") for x in e[1]) \
+                and ("intlist_null" in flags or _has_null_elem(e)) and o == _floated(e):
+            return None  # known: numeric list with a null element -> float array (null -> NaN, ints -> nearest double)
+    if "F-C11-2" in tol and "int_null" in flags and e is not None and e[0] == "i" and o == ["f", _bits(float(e[1]))]:
+        return None  # known: the integer came back as the nearest double
+    return "cell %r came back as %r" % (e, o)
+
+
+def _col_flags(rows):
+    """Per column: the guards of the known findings, decided on the Arrow values."""
+    out = {}
+    for j in range(len(rows[0]) if rows else 0):
+        col = [r[j] for r in rows]
+        fl = set()
+        if any(c is None for c in col) and any(c is not None and c[0] == "i" for c in col):
+            fl.add("int_null")
+        lists = [c for c in col if c is not None and c[0] == "l"]
+        if any(_has_null_elem(c) for c in lists) and any(x is not None and x[0] == "i" for c in lists for x in c[1]):
+            fl.add("intlist_null")
+        out[j] = fl
+    return out
+
+
+def _rows_why(expected, outs, int_null, tol, what):
+    """outs: one entry per next() call.  The first len(expected) must be the rows, all later ones StopIteration."""
+    for i, o in enumerate(outs):
+        if isinstance(o, dict):
+            return "%s: call %d raised %s" % (what, i, o["raise"])
+        if i < len(expected):
+            if o is None:
+                return "%s: row %d of %d missing (iterator stopped early)" % (what, i, len(expected))
+            if len(o) != len(expected[i]):
+                return "%s: row %d has %d cells, the Arrow row has %d" % (what, i, len(o), len(expected[i]))
+            for j, (e, x) in enumerate(zip(expected[i], o)):
+                why = _cell_why(e, x, int_null.get(j, ()), tol)
+                if why:
+                    return "%s: row %d column %d: %s" % (what, i, j, why)
+        elif o is not None:
+            return "%s: call %d returned a row after all %d expected rows were delivered: %r" % (what, i, len(expected), o)
+    if len(outs) < len(expected) + 1:
+        return "%s: fewer observations than expected rows" % what
+    return None
+
+
+def _oracle_stream(case, obs, tol):
+    if "raise" in obs:
+        return "from_arrow raised " + obs["raise"]
+    rows = [r for t in case["tables"] for r in _table_rows(t)]
+    size = case["size"]
+    if size == 0:
+        expected = None  # outside the quantifier (sizes 1..N+1 and none)
+    else:
+        expected = rows if size is None else rows[:size]
+    if expected is not None:
+        why = _rows_why(expected, obs["outs"], _col_flags(rows), tol, "from_arrow")
+        if why:
+            return why
+    if case["tables"]:
+        if len(obs["schema"]) != len(case["cols"]):
+            return "schema has %d columns, the first table %d" % (len(obs["schema"]), len(case["cols"]))
+        for c, f in zip(obs["schema"], obs["fields"]):
+            if c["name"] != f["name"] or c["nullable"] != f["nullable"]:
+                return "column %r nullable=%r built from Arrow field %r nullable=%r" % (c["name"], c["nullable"], f["name"], f["nullable"])
+    return None
+
+
+def _oracle_batch(case, obs, tol):
+    rows = [r for ch in case["chunks"] for r in ch]
+    inull = _col_flags(rows)
+    for b, out in enumerate(obs["outs"]):
+        if isinstance(out, dict):
+            return "process_table raised " + out["raise"]
+        why = _rows_why(rows, out + [None], inull, tol, "process_table batch %d" % (b + 1))
+        if why:
+            return why
+    return None
+
+
+def _oracle_roundtrip(case, obs, tol):
+    if "raise" in obs:
+        return "DataFrame -> arrow -> DataFrame raised " + obs["raise"]
+    rows, size = case["rows"], case["size"]
+    if size is not None and size < 0:
+        return None  # outside the quantifier
+    expected = rows if size is None else rows[:size]
+    inull = _col_flags(expected)
+    why = _rows_why(expected, obs["outs"], inull, tol, "round trip")
+    if why:
+        return why
+    if obs["names"] != case["names"] or obs["arrow_names"] != case["names"]:
+        return "column names %r became %r (Arrow) and %r (back)" % (case["names"], obs["arrow_names"], obs["names"])
+    return None
+
+
+def _accepted_elems():
+    from orso.types import OrsoTypes
+
+    out = []
+    for n in OrsoTypes.__members__:
+        try:
+            OrsoTypes.from_name("ARRAY<%s>" % n)
+            out.append(n)
+        except ValueError:
+            pass
+    return out
+
+
+def _col_round_trip_why(c, back, name):
+    """c: constructed column (observed attributes), back: column after Arrow; the typing clause of the property."""
+    t = c["type"]
+    if t in EXCLUDED or t is None or t.startswith("!"):
+        return None
+    if t == "ARRAY":
+        if c["elem"] is None or c["elem"] in EXCLUDED or c["elem"] not in _accepted_elems():
+            return None
+        if c["p"] is not None or c["s"] is not None:
+            return None
+    elif t == "DECIMAL":
+        p, s = c["p"], c["s"]
+        if not (isinstance(p, int) and isinstance(s, int) and 1 <= p <= 38 and 0 <= s <= p):
+            return None
+    elif c["p"] is not None or c["s"] is not None or c["elem"] is not None:
+        return None
+    if isinstance(back, dict) and "raise" in back:
+        return "%s %s has no Arrow round trip: raised %s" % (t, _tdesc(c), back["raise"])
+    for k in ("type", "p", "s", "elem"):
+        if back[k] != c[k]:
+            return "%s came back from Arrow as %s (%s differs)" % (_tdesc(c), _tdesc(back), k)
+    if back["name"] != name:
+        return "column name %r came back as %r" % (name, back["name"])
+    return None
+
+
+def _tdesc(c):
+    return "%s(elem=%s, precision=%s, scale=%s)" % (c["type"], c["elem"], c["p"], c["s"])
+
+
+def _oracle_o2a(case, obs, tol):
+    if "ctor" in obs:
+        return None
+    f = obs["field"]
+    if "raise" in f:
+        return _col_round_trip_why(obs["col"], f, obs["col"]["name"])
+    return _col_round_trip_why(obs["col"], obs["back"], obs["col"]["name"])
+
+
+def _oracle_a2o(case, obs, tol):
+    c = obs["col"]
+    if "raise" in c:
+        return None
+    f = case["field"]
+    if c["name"] != f["name"] or c["nullable"] != f["nullable"]:
+        return "Arrow field %r nullable=%r became column %r nullable=%r" % (f["name"], f["nullable"], c["name"], c["nullable"])
+    return None
+
+
+def _oracle_schema(case, obs, tol):
+    if "ctor" in obs:
+        return None
+    cols = obs["cols"]
+    fs = obs["fields"]
+    if isinstance(fs, dict):
+        for c in cols:
+            why = _col_round_trip_why(c, fs, c["name"])
+            if why:
+                return why
+        return None
+    back = obs["back"]
+    if isinstance(back, dict):
+        for c in cols:
+            why = _col_round_trip_why(c, back, c["name"])
+            if why:
+                return why
+        return None
+    if len(fs) != len(cols) or len(back) != len(cols):
+        return "schema of %d columns became %d Arrow fields and %d columns" % (len(cols), len(fs), len(back))
+    for c, f, b in zip(cols, fs, back):
+        name = c["identity"] if case["ids"] else c["name"]
+        if f["name"] != name:
+            return "Arrow field for column %r is named %r, expected %r" % (c["name"], f["name"], name)
+        if b["name"] != f["name"] or b["nullable"] != f["nullable"]:
+            return "Arrow field %r nullable=%r became column %r nullable=%r" % (f["name"], f["nullable"], b["name"], b["nullable"])
+        why = _col_round_trip_why(c, b, name)
+        if why:
+            return why
+    return None
+
+
+_ORACLES = {"stream": _oracle_stream, "batch": _oracle_batch, "roundtrip": _oracle_roundtrip, "o2a": _oracle_o2a,
+            "a2o": _oracle_a2o, "schema": _oracle_schema}
+
+
+def oracle(case, obs, tol=()):
+    return _ORACLES[case["kind"]](case, obs, tol)
+
+
+def known(case, obs):
+    """F-C11-2 / F-C11-5: exactly the cells the known defect of process_table changes, everything else still compared."""
+    if case["kind"] not in ("stream", "batch", "roundtrip"):
+        return None
+    if oracle(case, obs) is None:
+        return None
+    for tol in (("F-C11-2",), ("F-C11-5",), ("F-C11-2", "F-C11-5")):
+        if oracle(case, obs, tol) is None:
+            return tol[0]
+    return None
+
+
+KNOWN_WITNESSES = {
+    "F-C11-2": {"kind": "stream", "cols": [{"name": "i", "t": ["int64"]}],
+                "tables": [[[[["i", 1]], [None], [["i", 2**60 + 1]]]]], "size": None, "how": "list"},
+    "F-C11-5": {"kind": "stream", "cols": [{"name": "l", "t": ["list", ["int64"]]}],
+                "tables": [[[[["l", [["i", 1], None, ["i", 2**60 + 1]]]]]]], "size": None, "how": "list"},
+}
+
+
+# --------------------------------------------------------------------------------------
+# Coq literals
+
+def _tid():
+    from orso.types import OrsoTypes
+
+    return {n: i for i, n in enumerate(OrsoTypes.__members__)}
+
+
+def _coq_cell(c):
+    if c is None:
+        return "CNone"
+    k = c[0]
+    if k == "b":
+        return "(CBool %s)" % L.boolean(c[1])
+    if k == "i":
+        return "(CInt %s)" % L.Z(c[1])
+    if k == "f":
+        return "(CFloat %s)" % L.N(c[1])
+    if k == "s":
+        return "(CStr %s)" % L.text(c[1])
+    if k == "x":
+        return "(CBytes %s)" % L.bytes_(bytes.fromhex(c[1]))
+    if k == "t":
+        return "(CTs %s)" % L.Z(c[1])
+    if k == "d":
+        return "(CDate %s)" % L.Z(c[1])
+    if k == "n":
+        return "(CDec %s %s)" % (L.Z(c[1]), L.Z(c[2]))
+    if k == "l":
+        return "(CList %s)" % L.lst(_coq_cell(x) for x in c[1])
+    return "(COther 0%N)"
+
+
+def _coq_row(r):
+    return L.lst(_coq_cell(c) for c in r)
+
+
+def _coq_rows(rows):
+    return L.lst(_coq_row(r) for r in rows)
+
+
+def _coq_outs(outs):
+    return L.lst("None" if o is None else "(Some %s)" % _coq_row(o) for o in outs)
+
+
+def _coq_exn(name):
+    return name if name in ("ValueError", "TypeError", "AttributeError") else "OtherError"
+
+
+def _coq_field(f):
+    return "(mkField %s %s %s)" % (L.text(f["name"]), _coq_atype(f["t"]), L.boolean(f["nullable"]))
+
+
+def _coq_col(c, tid):
+    if c["type"] not in tid or (c["elem"] is not None and c["elem"] not in tid):
+        return None
+    for k in ("p", "s"):
+        if c[k] is not None and type(c[k]) is not int:
+            return None
+    return "(mkCol %s %s %s %s %s %s)" % (
+        L.text(c["name"]), L.N(tid[c["type"]]), L.opt(None if c["elem"] is None else L.N(tid[c["elem"]])),
+        L.opt(None if c["p"] is None else L.Z(c["p"])), L.opt(None if c["s"] is None else L.Z(c["s"])), L.boolean(c["nullable"]))
+
+
+def _coq_result(x, f):
+    """x: observation or {"raise": name}; f renders the Ok payload (None -> not expressible)."""
+    if isinstance(x, dict) and "raise" in x:
+        return "(Raise %s)" % _coq_exn(x["raise"])
+    t = f(x)
+    return None if t is None else "(Ok %s)" % t
+
+
+def _coq_cols(cols, tid):
+    ts = [_coq_col(c, tid) for c in cols]
+    return None if any(t is None for t in ts) else L.lst(ts)
+
+
+def to_coq(case, obs):
+    kind = case["kind"]
+    tid = _tid()
+    if kind == "stream":
+        if "raise" in obs or any(isinstance(o, dict) for o in obs["outs"]):
+            return None  # the oracle reports it; the model has no exception here
+        tables = L.lst(_coq_rows(_table_rows(t)) for t in case["tables"])
+        cols = _coq_cols(obs["schema"], tid)
+        if cols is None:
+            return None
+        term = "((%s, %s, %s, %s, %s, (Ok %s)) : stream_case)" % (
+            tables, L.opt(None if case["size"] is None else L.N(case["size"])), L.nat(len(obs["outs"])), _coq_outs(obs["outs"]),
+            L.lst(_coq_field(f) for f in obs["fields"]), cols)
+        return ("stream", term)
+    if kind == "batch":
+        if any(isinstance(o, dict) for o in obs["outs"]):
+            return None
+        rows = [r for ch in case["chunks"] for r in ch]
+        return ("batch", "((%s, %s) : batch_case)" % (_coq_rows(rows), L.lst(_coq_rows(o) for o in obs["outs"])))
+    if kind == "roundtrip":
+        if "raise" in obs or any(isinstance(o, dict) for o in obs["outs"]):
+            return None
+        cols = _coq_cols(obs["schema"], tid)
+        if cols is None:
+            return None
+        term = "((%s, %s, %s, %s, %s, %s, (Ok %s)) : roundtrip_case)" % (
+            _coq_rows(case["rows"]), L.lst(L.text(n) for n in case["names"]),
+            L.opt(None if case["size"] is None else L.Z(case["size"])), L.nat(len(obs["outs"])), _coq_outs(obs["outs"]),
+            L.lst(_coq_field(f) for f in obs["fields"]), cols)
+        return ("roundtrip", term)
+    if kind == "o2a":
+        if "ctor" in obs:
+            return None
+        col = _coq_col(obs["col"], tid)
+        f = _coq_result(obs["field"], _coq_field)
+        back = _coq_result(obs.get("back", {"raise": "ValueError"}), lambda c: _coq_col(c, tid))
+        if col is None or f is None or back is None:
+            return None
+        return ("o2a", "((%s, %s, %s) : o2a_case)" % (col, f, back))
+    if kind == "a2o":
+        col = _coq_result(obs["col"], lambda c: _coq_col(c, tid))
+        if col is None:
+            return None
+        return ("a2o", "((%s, %s, %s) : a2o_case)" % (L.boolean(case["mab"]), _coq_field(obs["field"]), col))
+    if kind == "schema":
+        if "ctor" in obs:
+            return None
+        cs = [_coq_col(c, tid) for c in obs["cols"]]
+        if any(c is None for c in cs):
+            return None
+        cols = L.lst("(%s, %s)" % (L.text(c["identity"]), t) for c, t in zip(obs["cols"], cs))
+        fs = _coq_result(obs["fields"], lambda l: L.lst(_coq_field(f) for f in l))
+        back = _coq_result(obs.get("back", {"raise": "ValueError"}), lambda l: _coq_cols(l, tid))
+        if fs is None or back is None:
+            return None
+        return ("schema", "((%s, %s, %s, %s) : schema_case)" % (L.boolean(case["ids"]), cols, fs, back))
+    return None
+
+
+# --------------------------------------------------------------------------------------
+# generators
+
+BIG_INTS = {"int64": [2**53 + 1, 2**60 + 1, 2**63 - 1, -2**63, -(2**53) - 1, 0, 1, -1],
+            "int32": [2**31 - 1, -2**31, 0, 7], "int8": [127, -128, 0, 5], "uint8": [255, 0, 9],
+            "uint64": [2**64 - 1, 2**63, 2**53 + 1, 0, 3], "int16": [32767, -32768, 1], "uint16": [65535, 2], "uint32": [2**32 - 1, 4]}
+FLOATS = [0.0, -0.0, 1.5, 0.1, float("nan"), float("inf"), float("-inf"), 5e-324, 1.7976931348623157e308, 9007199254740992.0, -2.5, 1e-7]
+STRINGS = ["", "a", "nan", "None", "héllo", "猫\U0001F600", "two words", "0", "a\x00b"]
+BYTES = [b"", b"a", b"\x00\xff", b"nan", bytes(range(8))]
+
+
+def _rand_cell(rng, spec, null_p):
+    if rng.random() < null_p:
+        return None
+    k = spec[0]
+    if k in INT_TYPES:
+        return ["i", rng.choice(BIG_INTS[k]) if rng.random() < 0.5 else rng.randint(0, 100)]
+    if k == "float64":
+        return ["f", _bits(rng.choice(FLOATS) if rng.random() < 0.7 else rng.uniform(-1e6, 1e6))]
+    if k in ("string", "large_string"):
+        return ["s", rng.choice(STRINGS)]
+    if k == "bool":
+        return ["b", rng.random() < 0.5]
+    if k in ("binary", "large_binary"):
+        return ["x", rng.choice(BYTES).hex()]
+    if k == "timestamp":
+        u = UNIT_NS[spec[1]]
+        if spec[1] == "ns":
+            v = rng.choice([0, 1, -1, 946684800 * 10**9 + 5, rng.randint(-(2**62), 2**62)])
+        else:
+            lo = (datetime.datetime(1, 1, 1) - EPOCH) // datetime.timedelta(seconds=1)
+            hi = (datetime.datetime(9999, 12, 31, 23, 59, 59) - EPOCH) // datetime.timedelta(seconds=1)
+            secs = rng.choice([0, lo, hi, -1, 1, rng.randint(lo, hi)])
+            frac = rng.choice([0, 1, 999999]) * 1000
+            v = secs * 10**9 + (frac if secs < hi else 0)
+            v = (v // u) * u
+        return ["t", v]
+    if k in ("date32", "date64"):
+        lo = (datetime.date(1, 1, 1) - EPOCH_D).days
+        hi = (datetime.date(9999, 12, 31) - EPOCH_D).days
+        return ["d", rng.choice([0, lo, hi, -1, rng.randint(lo, hi)])]
+    if k == "decimal128":
+        p, s = spec[1], spec[2]
+        n = rng.choice([0, 1, -1, 10**p - 1, -(10**p - 1), rng.randint(-(10**p - 1), 10**p - 1)])
+        n, e = _norm_dec(n, -s)
+        return ["n", n, e]
+    if k == "list":
+        inner_null = 0.0
+        if spec[1][0] in ("string", "bool"):
+            inner_null = 0.25
+        elif rng.random() < 0.08:
+            inner_null = 0.4
+        return ["l", [_rand_cell(rng, spec[1], inner_null) for _ in range(rng.choice([0, 1, 2, 3]))]]
+    raise KeyError(k)
+
+
+def _rand_spec(rng):
+    r = rng.random()
+    if r < 0.2:
+        return [rng.choice(["int64"] * 5 + ["int32", "int8", "uint64", "uint8", "int16", "uint16", "uint32"])]
+    if r < 0.32:
+        return ["float64"]
+    if r < 0.44:
+        return [rng.choice(["string", "string", "large_string"])]
+    if r < 0.52:
+        return ["bool"]
+    if r < 0.6:
+        return [rng.choice(["binary", "binary", "large_binary"])]
+    if r < 0.7:
+        return ["timestamp", rng.choice(["us", "us", "ms", "s", "ns"])]
+    if r < 0.78:
+        return [rng.choice(["date32", "date64"])]
+    if r < 0.88:
+        p = rng.choice([1, 2, 5, 10, 18, 19, 28, 38])
+        return ["decimal128", p, rng.choice([0, p, p // 2, min(p, 2)])]
+    return ["list", [rng.choice(["int64", "float64", "string", "bool"])]]
+
+
+def _rand_cols(rng, lo=1, hi=4):
+    cols = []
+    for j in range(rng.randint(lo, hi)):
+        cols.append({"name": rng.choice(["a", "b", "c", "col", "é", "x y"]) + str(j), "t": _rand_spec(rng)})
+    return cols
+
+
+def _null_ps(rng, cols):
+    """Per-column null probability; integer columns get nulls rarely (those cases fall under F-C11-2)."""
+    out = []
+    for c in cols:
+        if c["t"][0] in INT_TYPES:
+            out.append(0.3 if rng.random() < 0.12 else 0.0)
+        else:
+            out.append(rng.choice([0.0, 0.2, 0.2, 0.5, 1.0]) if rng.random() < 0.9 else 0.0)
+    return out
+
+
+def _rand_rows(rng, cols, n):
+    ps = _null_ps(rng, cols)
+    return [[_rand_cell(rng, c["t"], p) for c, p in zip(cols, ps)] for _ in range(n)]
+
+
+def _split(rng, rows, m):
+    """Split rows into m consecutive parts, zero-length parts anywhere."""
+    cuts = sorted(rng.randint(0, len(rows)) for _ in range(m - 1))
+    parts, prev = [], 0
+    for c in cuts + [len(rows)]:
+        parts.append(rows[prev:c])
+        prev = c
+    return parts
+
+
+def _rand_stream(rng):
+    cols = _rand_cols(rng)
+    n = rng.choice([0, 1, 2, 3, 4, 5, 6, 8])
+    rows = _rand_rows(rng, cols, n)
+    m = rng.choice([0, 1, 1, 2, 2, 3, 4, 5]) if n == 0 else rng.choice([1, 1, 2, 2, 3, 4, 5])
+    tables = []
+    for part in (_split(rng, rows, m) if m else []):
+        if rng.random() < 0.25:
+            tables.append(_split(rng, part, rng.choice([2, 3])))  # a table with several chunks
+        elif rng.random() < 0.1 and not part:
+            tables.append([])
+        else:
+            tables.append([part])
+    size = rng.choice([None, None, 1, 2, n, n + 1, max(1, n - 1), rng.randint(1, n + 1)])
+    hows = ["list", "list", "tuple", "gen"]
+    if len(tables) == 1:
+        hows.append("single")
+    if tables and size is None:
+        hows += ["df", "df"]
+    return {"kind": "stream", "cols": cols, "tables": tables, "size": size, "how": rng.choice(hows)}
+
+
+def _rand_batch(rng):
+    cols = _rand_cols(rng, 1, 3)
+    rows = _rand_rows(rng, cols, rng.choice([0, 1, 2, 3, 5, 6]))
+    return {"kind": "batch", "cols": cols, "chunks": _split(rng, rows, rng.choice([1, 1, 2, 3]))}
+
+
+RT_SPECS = [["int64"], ["float64"], ["string"], ["bool"], ["binary"], ["timestamp", "us"], ["date32"], ["decimal128", 10, 2],
+            ["list", ["int64"]], ["list", ["string"]], ["list", ["float64"]], ["list", ["bool"]]]
+
+
+def _rand_roundtrip(rng):
+    ncols = rng.randint(1, 4)
+    cols = [{"name": "c%d" % j, "t": rng.choice(RT_SPECS)} for j in range(ncols)]
+    names = [rng.choice(["a", "name", "été", "x y", "Col"]) + str(j) for j in range(ncols)]
+    n = rng.choice([0, 1, 2, 3, 4, 6])
+    rows = _rand_rows(rng, cols, n)
+    for r in rows:  # Python-side values: int64 range only, no uint64
+        for j, c in enumerate(r):
+            if c is not None and c[0] == "i" and not -(2**63) <= c[1] < 2**63:
+                r[j] = ["i", 2**60 + 1]
+    size = rng.choice([None, None, 0, 1, 2, n, n + 1, rng.randint(0, n + 1)])
+    return {"kind": "roundtrip", "names": names, "rows": rows, "size": size, "lazy": rng.random() < 0.3}
+
+
+def _members():
+    from orso.types import OrsoTypes
+
+    return list(OrsoTypes.__members__)
+
+
+def _o2a(t, elem=None, p=None, s=None, nullable=True, name="c", byname=None):
+    col = {"name": name, "type": t, "elem": elem, "p": p, "s": s, "nullable": nullable}
+    if byname:
+        col["byname"] = byname
+    return {"kind": "o2a", "col": col}
+
+
+def _type_grid():
+    ms = _members()
+    for t in ms:
+        if t not in ("ARRAY", "DECIMAL"):
+            yield _o2a(t)
+            yield _o2a(t, nullable=False, name="né")
+            if t != "_MISSING_TYPE":
+                yield _o2a(t, byname=t)
+    for e in [None] + ms:
+        yield _o2a("ARRAY", elem=e)
+        if e is not None:
+            yield _o2a("ARRAY", byname="ARRAY<%s>" % e)
+    yield _o2a("ARRAY", byname="ARRAY")
+    yield _o2a("DECIMAL")
+    yield _o2a("DECIMAL", byname="DECIMAL")
+    for p in range(1, 39):
+        for s in range(0, p + 1):
+            yield _o2a("DECIMAL", p=p, s=s)
+    for p, s in [(10, 0), (38, 38), (38, 0), (1, 0), (1, 1), (28, 10), (18, 9)]:
+        yield _o2a("DECIMAL", byname="DECIMAL(%d,%d)" % (p, s))
+    # outside the quantifier, model/implementation correspondence only
+    for t, p, s in [("DECIMAL", 0, 0), ("DECIMAL", 39, 2), ("DECIMAL", 5, 9), ("DECIMAL", 5, None), ("DECIMAL", None, 3),
+                    ("INTEGER", 0, None), ("VARCHAR", 40, 1), ("INTEGER", 5, 2), ("DOUBLE", None, 0), ("ARRAY", 12, 4)]:
+        yield _o2a(t, p=p, s=s)
+    yield _o2a("ARRAY", elem="DECIMAL", p=12, s=0)
+
+
+def _arrow_specs():
+    prim = [["null"], ["bool"], ["int8"], ["int16"], ["int32"], ["int64"], ["uint8"], ["uint16"], ["uint32"], ["uint64"],
+            ["float16"], ["float32"], ["float64"], ["string"], ["large_string"], ["binary"], ["large_binary"], ["fixed_binary", 4],
+            ["date32"], ["date64"], ["timestamp", "s"], ["timestamp", "ms"], ["timestamp", "us"], ["timestamp", "ns"],
+            ["timestamp", "us", "UTC"], ["time32", "s"], ["time32", "ms"], ["time64", "us"], ["time64", "ns"],
+            ["duration", "s"], ["duration", "us"], ["month_day_nano_interval"], ["string_view"], ["binary_view"],
+            ["decimal128", 10, 2], ["decimal128", 10, 0], ["decimal128", 38, 38], ["decimal128", 1, 0], ["decimal128", 5, -2],
+            ["decimal128", 5, 10], ["decimal256", 76, 10], ["decimal256", 10, 0], ["decimal32", 5, 2], ["decimal64", 12, 3],
+            ["struct", [["a", ["int64"]], ["b", ["string"]]]], ["struct", []], ["map", ["string"], ["int32"]],
+            ["dict", ["int8"], ["string"]], ["ree", ["int32"], ["string"]], ["union", "dense", [["int64"], ["string"]]],
+            ["union", "sparse", [["int64"]]]]
+    for s in prim:
+        yield s
+    for s in prim:
+        yield ["list", s]
+    for s in [["int64"], ["string"], ["null"], ["decimal128", 10, 2], ["list", ["int64"]], ["struct", [["a", ["int64"]]]], ["dict", ["int8"], ["string"]]]:
+        yield ["large_list", s]
+        yield ["fsl", s, 2]
+        yield ["list_view", s]
+        yield ["large_list_view", s]
+        yield ["list", ["list", s]]
+
+
+def _arrow_grid():
+    for i, s in enumerate(_arrow_specs()):
+        for nullable in (True, False):
+            if nullable or s != ["null"]:  # pyarrow refuses a non-nullable null field
+                yield {"kind": "a2o", "field": {"name": ["f", "é", "", "x y"][i % 4] + str(i), "nullable": nullable, "t": s}, "mab": False}
+        yield {"kind": "a2o", "field": {"name": "m%d" % i, "nullable": bool(i % 2) or s == ["null"], "t": s}, "mab": True}
+
+
+def _compositions(n, m):
+    """All ways to write n as an ordered sum of m non-negative parts."""
+    if m == 1:
+        yield (n,)
+        return
+    for first in range(n + 1):
+        for rest in _compositions(n - first, m - 1):
+            yield (first,) + rest
+
+
+SECOND = [["string"], ["float64"], ["bool"], ["timestamp", "us"], ["decimal128", 10, 2], ["binary"], ["date32"], ["list", ["string"]]]
+
+
+def _small_rows(n, spec):
+    vals = {
+        "string": [["s", "a"], None, ["s", ""], ["s", "nan"], None, ["s", "é"]],
+        "float64": [["f", _bits(1.5)], None, ["f", NAN_BITS], ["f", _bits(-0.0)], ["f", _bits(2.0**53)], None],
+        "bool": [["b", True], None, ["b", False], ["b", True], None, ["b", False]],
+        "timestamp": [["t", 0], None, ["t", 1577836800000001000], ["t", -62135596800000000000], None, ["t", 1000]],
+        "decimal128": [["n", 15, -1], None, ["n", 0, 0], ["n", -225, -2], None, ["n", 9999999999, -2]],
+        "binary": [["x", "61"], None, ["x", ""], ["x", "00ff"], None, ["x", "6e616e"]],
+        "date32": [["d", 0], None, ["d", -719162], ["d", 2932896], None, ["d", 18262]],
+        "list": [["l", [["s", "a"], None]], None, ["l", []], ["l", [["s", ""]]], None, ["l", [None]]],
+    }[spec[0]]
+    big = [0, 2**53 + 1, -(2**63), 2**60 + 1, 2**63 - 1, -1]
+    return [[["i", big[i]], vals[i]] for i in range(n)]
+
+
+def exhaustive(tier):
+    nmax = 6
+
+    def it():
+        yield {"kind": "stream", "cols": [{"name": "id", "t": ["int64"]}], "tables": [], "size": None, "how": "list"}
+        yield {"kind": "stream", "cols": [{"name": "id", "t": ["int64"]}], "tables": [], "size": 3, "how": "gen"}
+        k = 0
+        for n in range(0, nmax + 1):
+            for m in range(1, 5):
+                for comp in _compositions(n, m):
+                    spec = SECOND[k % len(SECOND)]
+                    rows = _small_rows(n, spec)
+                    tables, at = [], 0
+                    for c in comp:
+                        tables.append([rows[at:at + c]] if c or k % 3 else [])
+                        at += c
+                    cols = [{"name": "id", "t": ["int64"]}, {"name": "v", "t": spec}]
+                    for size in [None, 0] + list(range(1, n + 2)):
+                        hows = ["list", "tuple", "gen"] + (["single"] if m == 1 else []) + (["df"] if size is None else [])
+                        yield {"kind": "stream", "cols": cols, "tables": tables, "size": size, "how": hows[k % len(hows)]}
+                        k += 1
+        for c in _type_grid():
+            yield c
+        for c in _arrow_grid():
+            yield c
+
+    return it(), ("all splittings of 0..%d rows into 1..4 tables (zero-row tables anywhere) x size limits none, 0, 1..N+1 (and the empty table list); "
+                  "every OrsoTypes member, every element type (by member and by name), every DECIMAL(p,s) with 0<=s<=p<=38, p>=1; "
+                  "every constructible Arrow type x nullable x mappable_as_binary" % nmax)
+
+
+def _rand_schema(rng):
+    ms = _members()
+    cols = []
+    for j in range(rng.randint(0, 5)):
+        t = rng.choice(ms)
+        c = {"name": rng.choice(["a", "b", "é", "x y"]) + str(j), "type": t, "elem": None, "p": None, "s": None, "nullable": rng.random() < 0.7}
+        if t == "ARRAY":
+            c["elem"] = rng.choice([None] + ms)
+        if t == "DECIMAL":
+            c["p"] = rng.randint(1, 38)
+            c["s"] = rng.choice([0, c["p"], rng.randint(0, c["p"])])
+        if rng.random() < 0.15:
+            if t == "DECIMAL":
+                c["byname"] = "DECIMAL(%d,%d)" % (c["p"], c["s"])
+            elif t == "ARRAY" and c["elem"] in _accepted_elems():
+                c["byname"] = "ARRAY<%s>" % c["elem"]
+        cols.append(c)
+    return {"kind": "schema", "cols": cols, "ids": rng.random() < 0.4}
+
+
+def _rand_case(rng):
+    r = rng.random()
+    if r < 0.45:
+        return _rand_stream(rng)
+    if r < 0.6:
+        return _rand_batch(rng)
+    if r < 0.85:
+        return _rand_roundtrip(rng)
+    return _rand_schema(rng)
+
+
+def generate(rng, tier):
+    count = 700 if tier == "quick" else 14000
+    for _ in range(count):
+        yield _rand_case(rng)
+
+
+def corpus():
+    id_col = [{"name": "id", "t": ["int64"]}, {"name": "s", "t": ["string"]}]
+    t1 = [[[["i", 1], ["s", "a"]], [["i", 2], None]]]
+    t2 = [[[["i", 3], ["s", "c"]]]]
+    # F-C11-1 (fixed f02d25d): a zero-row table ended the stream
+    yield {"kind": "stream", "cols": id_col, "tables": [t1, [[]], t2], "size": None, "how": "list"}
+    yield {"kind": "stream", "cols": id_col, "tables": [[[]], t1], "size": None, "how": "list"}
+    yield {"kind": "stream", "cols": id_col, "tables": [t1, [], [[]], t2], "size": 3, "how": "gen"}
+    yield {"kind": "stream", "cols": id_col, "tables": [t1, [[]], t2], "size": None, "how": "df"}
+    # F-C11-3 (fixed 347ecff): DECIMAL(p,0) -> decimal128(p,10)
+    yield _o2a("DECIMAL", p=10, s=0)
+    yield _o2a("DECIMAL", byname="DECIMAL(10,0)")
+    yield {"kind": "schema", "cols": [{"name": "d", "type": "DECIMAL", "elem": None, "p": 5, "s": 0, "nullable": True}], "ids": False}
+    # F-C11-4 (fixed 6f0af8b): DATE -> date64 -> TIMESTAMP
+    yield _o2a("DATE")
+    yield _o2a("ARRAY", elem="DATE")
+    yield {"kind": "schema", "cols": [{"name": "d", "type": "DATE", "elem": None, "p": None, "s": None, "nullable": True}], "ids": True}
+    yield {"kind": "a2o", "field": {"name": "d", "nullable": True, "t": ["date64"]}, "mab": False}
+    # integers beyond 2^53 in a column without nulls, next to every other kind of null
+    yield {"kind": "stream", "cols": [{"name": "i", "t": ["int64"]}, {"name": "f", "t": ["float64"]}, {"name": "u", "t": ["uint64"]}],
+           "tables": [[[[["i", 2**60 + 1], None, ["i", 2**64 - 1]], [["i", -(2**63)], ["f", NAN_BITS], ["i", 2**53 + 1]]]]], "size": None, "how": "list"}
+
+
+def search(rng):
+    while True:
+        for c in corpus():
+            yield c
+        for _ in range(40):
+            yield _rand_case(rng)
+        ms = _members()
+        t = rng.choice(ms)
+        yield _o2a(t, elem=rng.choice(ms) if t == "ARRAY" else None,
+                   p=rng.randint(1, 38) if t == "DECIMAL" else None, s=0 if t == "DECIMAL" else None)
+        for c in itertools.islice(_arrow_grid(), rng.randint(0, 300), None, 97):
+            yield c
+
+
+def shrink(case):
+    k = case["kind"]
+    if k == "stream":
+        ts = case["tables"]
+        for i in range(len(ts)):
+            yield dict(case, tables=ts[:i] + ts[i + 1:], how="list" if case["how"] in ("single", "df") else case["how"])
+        for i, t in enumerate(ts):
+            for a, ch in enumerate(t):
+                for b in range(len(ch)):
+                    yield dict(case, tables=ts[:i] + [t[:a] + [ch[:b] + ch[b + 1:]] + t[a + 1:]] + ts[i + 1:])
+        if len(case["cols"]) > 1:
+            for j in range(len(case["cols"])):
+                yield dict(case, cols=case["cols"][:j] + case["cols"][j + 1:],
+                           tables=[[[r[:j] + r[j + 1:] for r in ch] for ch in t] for t in ts])
+        if case["size"] is not None and case["how"] != "df":
+            yield dict(case, size=None)
+    elif k == "roundtrip":
+        rows = case["rows"]
+        for i in range(len(rows)):
+            yield dict(case, rows=rows[:i] + rows[i + 1:])
+        if len(case["names"]) > 1:
+            for j in range(len(case["names"])):
+                yield dict(case, names=case["names"][:j] + case["names"][j + 1:], rows=[r[:j] + r[j + 1:] for r in rows])
+        if case["size"] is not None:
+            yield dict(case, size=None)
+    elif k == "batch":
+        chs = case["chunks"]
+        for a, ch in enumerate(chs):
+            for b in range(len(ch)):
+                yield dict(case, chunks=chs[:a] + [ch[:b] + ch[b + 1:]] + chs[a + 1:])
+    elif k == "schema":
+        cs = case["cols"]
+        for i in range(len(cs)):
+            yield dict(case, cols=cs[:i] + cs[i + 1:])
+
+
+# --------------------------------------------------------------------------------------
+# evidence bookkeeping
+
+def nontrivial_key(case, obs):
+    k = case["kind"]
+    if k == "stream" and not any(o is not None for o in obs.get("outs", [])):
+        return None
+    if k == "roundtrip" and not case["rows"]:
+        return None
+    if k == "batch" and not any(case["chunks"]):
+        return None
+    if k == "schema" and not case["cols"]:
+        return None
+    if k in ("o2a", "schema") and "ctor" in obs:
+        return None
+    return repr(sorted(case.items()))
+
+
+def classify(case, obs):
+    k = case["kind"]
+    yield k
+    if k == "stream":
+        n = sum(len(ch) for t in case["tables"] for ch in t)
+        yield "stream:tables=%d" % min(len(case["tables"]), 5)
+        yield "stream:rows=%d" % min(n, 7)
+        yield "stream:how=" + case["how"]
+        yield "stream:size=" + ("none" if case["size"] is None else "0" if case["size"] == 0 else "<N" if case["size"] < n else "=N" if case["size"] == n else ">N")
+        if any(not any(t) for t in case["tables"]):
+            yield "stream:has-zero-row-table"
+        if any(len(t) > 1 for t in case["tables"]):
+            yield "stream:has-multi-chunk-table"
+        for c in case["cols"]:
+            yield "col:" + c["t"][0]
+    elif k == "batch":
+        for c in case["cols"]:
+            yield "col:" + c["t"][0]
+    elif k == "roundtrip":
+        yield "roundtrip:size=" + ("none" if case["size"] is None else "limited")
+        yield "roundtrip:" + ("lazy" if case.get("lazy") else "eager")
+    elif k == "o2a":
+        yield "o2a:" + ("ctor-raised" if "ctor" in obs else str(obs["col"]["type"]))
+        if "field" in obs and "raise" in obs["field"]:
+            yield "o2a:arrow_field-raised"
+    elif k == "a2o":
+        yield "a2o:" + ("raised" if "raise" in obs["col"] else str(obs["col"]["type"]))
+    elif k == "schema":
+        yield "schema:cols=%d" % len(case["cols"])
+        yield "schema:" + ("identities" if case["ids"] else "names")
